@@ -5,7 +5,20 @@ import runner
 from props.parts import cratesv2 as cv
 
 LEAN_MODULES = ["Properties.C07V2"]
-THEOREMS = ["EngineModel.Properties.C07." + t for t in []]
+THEOREMS = ["EngineModel.Properties.C07V2." + t for t in [
+    "C07V2_step_refines",
+    "C07V2_refines",
+    "C07V2_forest_invariant",
+    "C07V2_queries_agree",
+    "C07V2_roots_children_agree",
+    "C07V2_descendants_transitive_closure",
+    "C07V2_rejected_without_effect",
+    "C07V2_cycle_rejected",
+    "C07V2_dead_parent_rejected",
+    "C07V2_invalid_name_rejected",
+    "C07V2_removed_subtree_gone",
+    "C07V2_ids_never_reused",
+]]
 ASSUMPTIONS = [
     "2.x: SqliteSemantics — hand translation of the Playlist statements, triggers (recursive_triggers = OFF) and of the "
     "recursive view PlaylistAllChildren (as reachability along parentListId) into list operations; validated by raw-table "
